@@ -170,8 +170,14 @@ func startsWithFunctionOrObject(expr Expression) bool {
 			}
 			expr = e.Left
 		case *CallExpression:
+			if e.Function == nil || e.Function.Precedence() < PrecedenceCall {
+				return false
+			}
 			expr = e.Function
 		case *MemberExpression:
+			if e.Object == nil || e.Object.Precedence() < PrecedenceCall {
+				return false
+			}
 			expr = e.Object
 		case *AssignmentExpression:
 			expr = e.Left
@@ -604,7 +610,12 @@ type CallExpression struct {
 }
 
 func (ce *CallExpression) WriteTo(cw *CodeWriter) {
-	ce.Function.WriteTo(cw)
+	// a callee that binds less tightly than a call needs parens: (a + b)(c)
+	if ce.Function.Precedence() < PrecedenceCall {
+		writeParenthesised(cw, ce.Function)
+	} else {
+		ce.Function.WriteTo(cw)
+	}
 	cw.WriteLeadingComments(ce.Token.LeadingComments)
 	cw.AddMapping(ce.Token.Start)
 	cw.WriteRune('(')
@@ -632,7 +643,12 @@ type MemberExpression struct {
 }
 
 func (me *MemberExpression) WriteTo(cw *CodeWriter) {
-	me.Object.WriteTo(cw)
+	// an object that binds less tightly than a call needs parens: (a + b).c, (-a)[0]
+	if me.Object.Precedence() < PrecedenceCall {
+		writeParenthesised(cw, me.Object)
+	} else {
+		me.Object.WriteTo(cw)
+	}
 	cw.WriteLeadingComments(me.Token.LeadingComments)
 	if me.Computed {
 		cw.AddMapping(me.Token.Start)
